@@ -455,6 +455,20 @@ def D48():
     tg = A.Timegrid(dt.date(2021, 1, 1), dt.date(2021, 3, 1), freq='W')
     return "grid from 2021-01-01 with freq 'W': first time point %s" % str(tg.timepoints[0])[:10]
 
+@witness
+def D49():
+    tg = A.Timegrid(dt.date(2021, 3, 1), dt.date(2021, 3, 3), freq='d', timezone='America/New_York')
+    return "grid in America/New_York, {'start': 2021-03-01, 'values': 3}: %s" % tg.values_to_grid({'start': dt.datetime(2021, 3, 1), 'values': 3.})
+
+@witness
+def D50():
+    def run(mtu, per_hour):
+        tg = A.Timegrid(dt.date(2021, 1, 1), dt.date(2021, 1, 2), freq='h', main_time_unit=mtu)
+        s = A.Storage('s', N1, size=1, cap_in=1 / per_hour, cap_out=1 / per_hour, price='p', max_store_duration=10 * per_hour)
+        p = 50. * np.ones(tg.T); p[:10] = np.arange(10); p[10] = 100.
+        return round(s.setup_optim_problem({'p': p}, timegrid=tg).optimize().value, 4)
+    return 'storage with a holding time of 10 hours, main time unit h / min / d: value %s / %s / %s' % (run('h', 1), run('min', 60), run('d', 1 / 24))
+
 if __name__ == '__main__':
     which = sys.argv[1:] or list(W)
     for k in which:
